@@ -5,6 +5,8 @@ HERE = os.path.dirname(os.path.dirname(os.path.abspath(__file__)))
 CHECKS = {
  "C09": ("proof", "ReplayBuffer.add/sample/clear/__len__ proved against a ring-buffer representation invariant with a ghost history (all capacities, cursor positions, batch widths incl. wrap exactly at/over the end); storage = last min(N,added) rows; sampled rows are stored rows, distinct indices, fresh copies. Multi-agent buffer: bounded native check only.",
          "TensorDict row model (slice views, slice assignment copies rows, advanced indexing returns a copy), torch.randperm is a permutation, ints mathematical; Transition shape normalisation and MultiAgentReplayBuffer are bounded stand-ins."),
+ "C10": ("proof", "MultiStepReplayBuffer._get_n_step_info and .add proved for every n, gamma, number of envs and placement of done flags: the fused row is the discounted sum up to a cut index j with no terminal step of that env before j, cut only at the window end or where some env ends, with next_obs/done of step j and obs/action of step 0; add returns the first window element whose (obs, action) equal those of the row appended to the n-step storage (alignment with the 1-step buffer).",
+         "A-REAL; per-env vector model of TensorDict fields; deque(maxlen) semantics; ReplayBuffer.add by its C09 contract; stream continuity across resets is a caller precondition."),
  "C11": ("proof", "Segment trees (__init__, __setitem__, __getitem__, _operate_helper, operate, retrieve) and PrioritizedReplayBuffer (__init__, add, _update_priority, _sample_proportional, _calculate_weights, update_priorities, sample, clear) proved over reals for all capacities/cursors/draws: tree well-formedness, root = fold of leaves (sum and min), retrieve returns the index whose mass interval contains the draw, sampled indices are stored slots, new items get max priority, weights = (N P(i))^-beta / max in (0,1].",
          "A-REAL (floats as reals: the descent is not exact in IEEE doubles), pow axioms, is_pow2 axioms, induction schema for the fold lemmas, TensorDict row model, torch.rand in [0,1)."),
 }
